@@ -5,6 +5,7 @@ package rules
 import (
 	"fmt"
 	"go/constant"
+	"go/token"
 	"strings"
 
 	"decverif/internal/cdai"
@@ -171,7 +172,7 @@ func stdInterp(m *model.Model) *cdai.Interp {
 	for _, n := range []string{"(*Decimal).validate", "(*Decimal).sqrtInverse", "(*Decimal).round", "(*Decimal).ucmp", "(*Decimal).pow2", "(*Decimal).intMant", "(*Decimal).Text", "(*Decimal).String", "(*Decimal).Append"} {
 		it.Opaque[n] = true
 	}
-	for _, n := range []string{"(*Decimal).uadd", "(*Decimal).usub", "(*Decimal).umul", "(*Decimal).uquo", "(*Decimal).round", "(*Decimal).setExpAndRound", "(*Decimal).ucmp", "(*Decimal).setBits64", "(*Decimal).sqrtInverse"} {
+	for _, n := range []string{"(*Decimal).uadd", "(*Decimal).usub", "(*Decimal).umul", "(*Decimal).uquo", "(*Decimal).round", "(*Decimal).setExpAndRound", "(*Decimal).ucmp", "(*Decimal).setBits64", "(*Decimal).sqrtInverse", "(*Decimal).Quo", "(*Decimal).Mul"} {
 		it.Traced[n] = true
 	}
 	// round on a non-finite value only resets the accuracy (obligation T-ROUND/nonfinite checks
@@ -206,9 +207,30 @@ func stdInterp(m *model.Model) *cdai.Interp {
 	}
 	it.Models["same"] = sameMant
 	it.Models["alias"] = sameMant
+	// pow2(n) sets its receiver to 2**n: a finite positive value (n is bounded by the exponent
+	// range of a float, so 2**n cannot leave the decimal exponent range). Stated assumption
+	// (DESIGN Appendix B6); without it every Quo/Mul by a power of two would fork into 0/0.
+	it.Models["(*Decimal).pow2"] = func(it *cdai.Interp, st *cdai.State, name string, args []cdai.Val) ([]cdai.Val, bool) {
+		o, ok := args[0].(cdai.Obj)
+		if !ok {
+			return nil, false
+		}
+		st.Set(o, m.F.Form, cdai.Int(e.finite))
+		st.Set(o, m.F.Neg, cdai.Bool(false))
+		st.Set(o, m.F.Acc, cdai.TopV)
+		st.Set(o, m.F.Exp, cdai.TopV)
+		st.Set(o, m.F.Mant, cdai.TopV)
+		return []cdai.Val{o}, true
+	}
 	it.Inline["makeAcc"] = true
 	it.Inline["umax32"] = true
 	it.Inline["NewDecimal"] = true
 	it.Inline["limitExp"] = true
 	return it
+}
+
+func constantUint(u uint64) constant.Value { return constant.MakeUint64(u) }
+
+func constantEq(a, b constant.Value) bool {
+	return a.Kind() == b.Kind() && constant.Compare(a, token.EQL, b)
 }
